@@ -56,8 +56,55 @@ def traced(code):
     return False
 
 
+_PRISTINE = {}
+
+
+def _simple(v):
+    return v is None or isinstance(v, (bool, int, float, str, bytes, tuple, frozenset))
+
+
+def restore_module_state(gf):
+    """Every execution starts from the module state hszinc has right after import: module-level variables that hold
+    plain values are put back, module-level containers that were empty at import are emptied again (the compiled-filter
+    cache and the name counter are handled separately).  Whatever survives this and still changes behaviour makes the
+    execution irreproducible, which is reported as a violation."""
+    if 'snap' not in _PRISTINE:
+        import importlib
+        import sys as _sys
+        import types
+        fresh = {}
+        # import-time values: read them from a second, private import of the module source
+        spec = importlib.util.spec_from_file_location('hszinc._verif_pristine_grid_filter', gf.__file__,
+                                                      submodule_search_locations=None)
+        mod = importlib.util.module_from_spec(spec)
+        mod.__package__ = 'hszinc'
+        try:
+            spec.loader.exec_module(mod)
+            for k, v in vars(mod).items():
+                if k.startswith('__') or k.startswith('_gen_hsfilter_'):
+                    continue
+                if _simple(v) or (isinstance(v, (dict, set, list)) and len(v) == 0):
+                    fresh[k] = v
+        except Exception:  # noqa
+            fresh = {}
+        _PRISTINE['snap'] = fresh
+    for k, v in _PRISTINE['snap'].items():
+        cur = getattr(gf, k, None)
+        if _simple(v):
+            if cur is not v and cur != v or type(cur) is not type(v):
+                setattr(gf, k, v)
+        elif isinstance(cur, (dict, set, list)):
+            cur.clear()
+    for obj in list(vars(gf).values()):
+        if isinstance(obj, type) and obj.__module__ == gf.__name__:
+            for k, v in list(vars(obj).items()):
+                if isinstance(v, (dict, set, list)) and not k.startswith('__'):
+                    v.clear()
+
+
 def reset(gf, capacity):
     """Fresh shared state before one execution (refcount-driven finalisers run here, deterministically)."""
+    restore_module_state(gf)
     fn = gf._filter_function
     inner = getattr(fn, '__wrapped__', None)
     real = getattr(gf, 'FILTER_CACHE_LRU_SIZE', None)
@@ -170,14 +217,29 @@ def schedule_task(plan, capacity, bound, prefixes, budget, calls=2):
     shape = '%d-threads/%s' % (len(plan), 'same-filter' if len(set(plan)) < len(plan) else 'distinct-filters')
 
     def make_run(prefix):
-        s, obs, problems, used = one_execution(prefix, plan, capacity, calls)
+        try:
+            s, obs, problems, used = one_execution(prefix, plan, capacity, calls)
+        except HarnessError as e:
+            if 'diverged' not in str(e):
+                raise
+            # a prefix recorded in one execution cannot be followed in another although both start from a clean state
+            st.fail('execution-not-reproducible-from-a-clean-state', {'shape': shape, 'capacity': str(capacity or 'real'), 'preemptions': -1},
+                    {'kind': 'schedule', 'plan': plan, 'capacity': capacity, 'calls': calls, 'schedule': list(prefix)}, {'what': str(e)[:200]})
+            s, obs, problems, used = one_execution([], plan, capacity, calls)
+            s.points, s.choices = s.points[:0], s.choices[:0]
+            return s, obs
         st.case((tuple(plan), capacity, calls, tuple(s.choices)), nontrivial=any(c != 0 for c in s.choices), outcome=obs,
                 sample={'threads': plan, 'schedule': list(s.choices)[:60], 'preemptions': s.preemptions_before(len(s.choices))} if any(s.choices) else None)
         if problems:
             # determinism obligation: the same schedule must fail the same way twice
-            s2, obs2, problems2, _ = one_execution(list(s.choices), plan, capacity, calls)
-            if obs2 != obs or [p[0] for p in problems2] != [p[0] for p in problems]:
-                raise HarnessError('schedule %r is not deterministic: %r vs %r' % (s.choices, problems, problems2))
+            try:
+                s2, obs2, problems2, _ = one_execution(list(s.choices), plan, capacity, calls)
+                same = obs2 == obs and [p[0] for p in problems2] == [p[0] for p in problems]
+            except HarnessError:
+                same = False
+            if not same:
+                # the harness restores everything it knows about; state that survives and changes behaviour IS the property's subject
+                problems = [('execution-not-reproducible-from-a-clean-state', 'the same schedule behaves differently when run again: %r' % (problems[:1],))]
             for sym, text in problems[:2]:
                 st.fail(sym, {'shape': shape, 'capacity': str(used), 'preemptions': s.preemptions_before(len(s.choices))},
                         {'kind': 'schedule', 'plan': plan, 'capacity': capacity, 'calls': calls, 'schedule': list(s.choices)}, {'what': text})
@@ -270,8 +332,10 @@ FAMILY = [
     ('x  ==  75', ('cmp', '==', ('x',), N.num(75.0))), ('(x == 75)', ('cmp', '==', ('x',), N.num(75.0))),
     ('x == "a  b"', ('cmp', '==', ('x',), ('str', 'a  b'))), ('x == "a b"', ('cmp', '==', ('x',), ('str', 'a b'))),
     ('x', ('has', ('x',))), ('not x', ('not', ('x',))),
+    ('x > 5kg', ('cmp', '>', ('x',), N.num(5.0, 'kg'))), ('x > 5m', ('cmp', '>', ('x',), N.num(5.0, 'm'))), ('x == 6kg', ('cmp', '==', ('x',), N.num(6.0, 'kg'))),
+    ('x != 6kg', ('cmp', '!=', ('x',), N.num(6.0, 'kg'))), ('x < 2021-01-01T00:00:00Z UTC', ('cmp', '<', ('x',), ('dt', 1609459200000000, 0, 'UTC'))),
 ]
-FAMILY_VALUES = [N.num(75.0), ('str', '75.0'), ('str', '75'), ('date', 2020, 1, 1), ('str', '2020-01-01'), ('ref', 's1', None), ('str', '@s1'), ('str', 's1'),
+FAMILY_VALUES = [N.num(7.0, 'm'), N.num(6.0, 'kg'), N.num(7.0, 'kg'), N.num(4.0, 'm'), ('dt', 1577836800000000, 0, 'UTC'), ('dt', 1640995200000000, 3600, None), N.num(75.0), ('str', '75.0'), ('str', '75'), ('date', 2020, 1, 1), ('str', '2020-01-01'), ('ref', 's1', None), ('str', '@s1'), ('str', 's1'),
                  ('bool', True), ('str', 'True'), ('str', 'true'), ('uri', 'u'), ('str', 'u'), ('time', 12, 0, 0, 0), ('str', '12:00:00'), ('str', 'a  b'), ('str', 'a b')]
 
 
@@ -282,9 +346,10 @@ def family_task(seqs):
     from ref import observe as O
     st = Stats()
     rows = [{'id': ('str', 'v%d' % i), 'x': v} for i, v in enumerate(FAMILY_VALUES)] + [{'id': ('str', 'none')}]
-    expected = {}
+    expected, unpinned = {}, {}
     for text, ast in FAMILY:
         expected[text] = tuple(r['id'][1] for r in rows if RF.evaluate(ast, r, rows) is True)
+        unpinned[text] = set(r['id'][1] for r in rows if RF.evaluate(ast, r, rows) is None)   # three-valued oracle: don't-care rows
     for seq in seqs:
         gc.disable()
         reset(gf, None)
@@ -299,7 +364,7 @@ def family_task(seqs):
                 got = tuple(r['id'] for r in g.filter(text))
             except BaseException as e:  # noqa
                 got = 'raised:' + type(e).__name__
-            if got != expected[text]:
+            if not isinstance(got, tuple) or tuple(x for x in got if x not in unpinned[text]) != expected[text]:
                 problem = 'step %d filter %r after %r: %r != %r' % (step, text, [FAMILY[i][0] for i in seq[:step]], got, expected[text])
                 break
         gc.enable()
@@ -405,7 +470,7 @@ def run(ctx):
         'stats': st, 'exhaustive': True,
         'rule': 'schedules: every interleaving (scheduling point = every source line of the non-lambda functions of hszinc/grid_filter.py and of '
                 'Grid.filter) of the listed thread plans with at most preemption_bound preemptions, each followed by a sequential post-phase; '
-                'histories: every request sequence of length <= %d over 4 filters with cache capacity 1 and 2; every ordered pair of 21 near-colliding filters (same text up to the kind of the literal, blanks or parentheses) from a clean state; plus individual long histories around '
+                'histories: every request sequence of length <= %d over 4 filters with cache capacity 1 and 2; every ordered pair of 26 near-colliding or unit-sensitive filters (same text up to the kind of the literal, blanks or parentheses) from a clean state; plus individual long histories around '
                 'the real capacity (reported as individual runs, not exhaustive); evaluations = complete executions of the real code; distinct = '
                 'distinct (plan, capacity, schedule) or request sequence; non-trivial = at least one non-default scheduling choice / two different filters' % L,
         'coverage': {'bounds': {'schedule_plans': bounds, 'history_length': L, 'history_capacities': [1, 2], 'long_histories': longs},
